@@ -26,20 +26,32 @@ def pause_execution(
         pause_time=int(time.time() * 1000),
     )
 
-    conn.execute(
-        """
+    # A finished execution cannot be paused: without this check a pause
+    # arriving after completion overwrote the final status (e.g. TERMINAL ->
+    # PAUSED), and nothing would ever complete the execution again.
+    terminal = [s.name for s in WorkflowStatus if s.is_complete]
+    placeholders = ", ".join(f":t{i}" for i in range(len(terminal)))
+    params = {
+        "id": execution_id,
+        "status": WorkflowStatus.PAUSED.name,
+        "paused": json.dumps(paused_to_dict(paused)),
+    }
+    params.update({f"t{i}": name for i, name in enumerate(terminal)})
+    cursor = conn.execute(
+        f"""
         UPDATE pipeline_executions SET
             status = :status,
             paused = :paused
-        WHERE id = :id
+        WHERE id = :id AND status NOT IN ({placeholders})
         """,
-        {
-            "id": execution_id,
-            "status": WorkflowStatus.PAUSED.name,
-            "paused": json.dumps(paused_to_dict(paused)),
-        },
+        params,
     )
     conn.commit()
+    if cursor.rowcount == 0:
+        logger.warning(
+            "Pause had no effect for execution %s - already complete or unknown",
+            execution_id,
+        )
 
 
 def resume_execution(
